@@ -27,9 +27,7 @@ open ShellOp ShellOp.Util ShellOp.Combine ShellOp.Retry
 `stopCombineOnAllowFailureChange(hookMeta)`; before it the code passed `nil`). -/
 def codeStopOf : Task → Option (Task → Bool) := stopOnAllowFailureChange
 
-def params : Backoff.Params :=
-  { maxDelayNs := Facts.c04MaxDelayNs, factor := Facts.c04Factor, randomMs := Facts.c04RandomMs,
-    expCount := Facts.c04ExpCount, truncNs := Facts.c04TruncNs }
+def params : Backoff.Params := Retry.realParams
 
 structure QSt where
   s : Retry.State := {}
